@@ -343,8 +343,102 @@ class PendGen(histgen.HistGen):
     finally:
       self.pick_table = saved
 
+  trig = 0.0       # share of bundles about data columns WITH formulas (default / trigger) and ReplaceTableData
+
+  def formula_data_column(self, meta, t):
+    """AddColumn of a data column that carries a formula: default formula (recalcWhen 0, with or without
+    recalcDeps), never (1) or trigger on every manual update (2)."""
+    r = self.r
+    lower = [c for c in meta.data_cols(t['id']) if self.level_of(c) < 1 and not c.get('formula')]
+    x = r.choice(lower) if lower else None
+    cid = r.choice(['dflt', 'trg', 'auto', 'stamp'])
+    f = r.choice(['"c"', 'rec.id * 10', '$id + 1000'] +
+                 (['$%s' % x['colId'], 'str($%s) + "!"' % x['colId'], 'UPPER(str($%s))' % x['colId']] if x else []))
+    rw = r.choice([0, 0, 1, 2, 2])
+    deps = ['L', x['id']] if (x and rw == 0 and r.random() < 0.5) else None
+    self.pend(t['tableId'], cid, 1)
+    return ['AddColumn', t['tableId'], cid, {'type': r.choice(['Any', 'Text', 'Int', 'Numeric']), 'isFormula': False,
+                                             'formula': f, 'recalcWhen': rw, 'recalcDeps': deps}]
+
+  def replace_table_data(self, meta, t):
+    """ReplaceTableData whose ids overlap the existing ones fully, partially or not at all."""
+    r = self.r
+    tid = t['tableId']
+    rows = meta.rows(tid)
+    top = max(rows) if rows else 0
+    mode = r.choice(['same', 'partial', 'disjoint', 'subset'])
+    if mode == 'same' and rows:
+      ids = list(rows)
+    elif mode == 'subset' and rows:
+      ids = r.sample(rows, max(1, len(rows) // 2))
+    elif mode == 'partial' and rows:
+      ids = r.sample(rows, max(1, len(rows) // 2)) + [top + 1, top + 3]
+    else:
+      ids = [top + 1, top + 2]
+    cols = [c for c in meta.data_cols(t['id']) if not c.get('formula') or r.random() < 0.3]
+    cols = r.sample(cols, min(len(cols), r.randint(0, 2)))
+    return ['ReplaceTableData', tid, ids, {c['colId']: [self.value(c['type'], meta) for _ in ids] for c in cols}]
+
+  def trig_bundle(self, e):
+    r = self.r
+    meta = histgen.Meta(e)
+    tabs = meta.user_tables()
+    if not tabs:
+      return None
+    have = [t for t in tabs if any(c.get('formula') for c in meta.data_cols(t['id']))]
+    if not have or r.random() < 0.2:
+      return [self.formula_data_column(meta, r.choice(tabs))]
+    t = r.choice(have)
+    tid = t['tableId']
+    fds = [c for c in meta.data_cols(t['id']) if c.get('formula')]
+    plain = [c for c in meta.data_cols(t['id']) if not c.get('formula')]
+    rows = meta.rows(tid)
+    acts = []
+    names = {c['colId']: c['colId'] for c in fds}
+    for _ in range(r.randint(1, 4)):
+      k = r.choice(['override', 'override', 'dep', 'addrec', 'addrec', 'rmrec', 'rmcol', 'rencol', 'replace', 'replace'])
+      live = [c for c in fds if names.get(c['colId'])]
+      if k == 'override' and rows and live:
+        c = r.choice(live)
+        rs = r.sample(rows, min(len(rows), r.randint(1, 2)))
+        acts.append(['BulkUpdateRecord', tid, rs, {names[c['colId']]: [self.value(c['type'], meta) for _ in rs]}])
+      elif k == 'dep' and rows and plain:
+        c = r.choice(plain)
+        rs = r.sample(rows, min(len(rows), r.randint(1, 2)))
+        acts.append(['BulkUpdateRecord', tid, rs, {c['colId']: [self.value(c['type'], meta) for _ in rs]}])
+      elif k == 'addrec':
+        n = r.randint(1, 2)
+        cols = {}
+        if plain and r.random() < 0.7:
+          c = r.choice(plain)
+          cols[c['colId']] = [self.value(c['type'], meta) for _ in range(n)]
+        if live and r.random() < 0.3:
+          c = r.choice(live)
+          cols[names[c['colId']]] = [self.value(c['type'], meta) for _ in range(n)]
+        acts.append(['BulkAddRecord', tid, [None] * n, cols])
+      elif k == 'rmrec' and rows:
+        acts.append(['BulkRemoveRecord', tid, r.sample(rows, min(len(rows), r.randint(1, 2)))])
+      elif k == 'rmcol' and live:
+        c = r.choice(live)
+        acts.append(['RemoveColumn', tid, names[c['colId']]])
+        names[c['colId']] = None
+      elif k == 'rencol' and live:
+        c = r.choice(live)
+        new = 'q%d' % r.randint(1, 99)
+        acts.append(['RenameColumn', tid, names[c['colId']], new])
+        names[c['colId']] = new
+      elif k == 'replace':
+        acts.append(self.replace_table_data(meta, t))
+        break
+    self.stats['trig'] += 1
+    return acts or None
+
   def bundle(self, e, max_len=3):
     r = self.r
+    if r.random() < self.trig:
+      b = self.trig_bundle(e)
+      if b:
+        return b
     if r.random() >= self.directed:
       return histgen.HistGen.bundle(self, e, max_len)
     meta = histgen.Meta(e)
@@ -470,6 +564,7 @@ def _traced_run(ctx, n_hist, nb):
       r = random.Random(base * 100003 + i)
       gen = PendGen(r, weights=WEIGHTS if i % 2 else None)
       gen.directed = [0.0, 0.3, 0.6][i % 3]
+      gen.trig = [0.0, 0.5, 0.25, 0.5][i % 4]
       e, _ = G.new_doc()
       history = []
       for _ in range(r.randint(1, 2)):
